@@ -948,6 +948,54 @@ fn derive_db_type_flatten_nested_struct() {
 }
 
 #[test]
+fn derive_db_type_flatten_nested_struct_with_option() {
+    #[derive(DbType, PartialEq, Debug)]
+    struct Inner {
+        required: i64,
+        optional: Option<u64>,
+    }
+
+    #[derive(DbType, PartialEq, Debug)]
+    struct AllOptional {
+        note: Option<String>,
+    }
+
+    #[derive(DbType, PartialEq, Debug)]
+    struct Outer {
+        db_id: Option<DbId>,
+        category: String,
+        #[agdb(flatten)]
+        inner: Inner,
+        #[agdb(flatten)]
+        extra: AllOptional,
+    }
+
+    let mut outer = Outer {
+        db_id: None,
+        category: "test".into(),
+        inner: Inner {
+            required: -1,
+            optional: Some(5),
+        },
+        extra: AllOptional {
+            note: Some("note".into()),
+        },
+    };
+
+    let mut db = TestDb::new();
+    db.exec_mut(QueryBuilder::insert().element(&outer).query(), 4);
+
+    let retrieved: Outer = db
+        .exec_result(QueryBuilder::select().elements::<Outer>().ids(1).query())
+        .try_into()
+        .unwrap();
+
+    outer.db_id = Some(DbId(1));
+    assert_eq!(outer, retrieved);
+    assert_eq!(Outer::db_keys(), Vec::<DbValue>::new());
+}
+
+#[test]
 fn derive_db_type_skip_field() {
     #[derive(DbType, PartialEq, Debug)]
     struct Skipped {
